@@ -227,6 +227,19 @@ def wl_names(ctx, idx, rng):
 # ------------------------------------------------------------------------------------------------
 # STFT / ISTFT
 # ------------------------------------------------------------------------------------------------
+class OversampledSignal(pb.BasebandSignal):
+    """A user subclass for an oversampled filterbank: channels are spaced more closely than they are sampled."""
+
+    def __init__(self, z, /, *, sample_rate, center_freq, oversampling=2, start_time=None, freq_align="center", meta=None):
+        super().__init__(z, sample_rate=sample_rate, center_freq=center_freq, start_time=start_time, freq_align=freq_align, meta=meta)
+        self._oversampling = oversampling
+        self.chan_bw = sample_rate / oversampling
+
+    @property
+    def oversampling(self):
+        return self._oversampling
+
+
 def wl_stft(ctx, idx, rng):
     o = "stft"
     nchan = 1 + idx % 4
@@ -260,10 +273,14 @@ def wl_stft(ctx, idx, rng):
     use_dask = rng.random() < 0.15
     start = gen.rand_time(rng, p_none=0.3)
     sig, desc = gen.make_signal(rng, clsname, N, data=x, rate=rate, fc=fc, align=align, start=start, dask=use_dask)
-    desc.update(nperseg=P, N=N, tones=ks)
+    oversampled = clsname == "BasebandSignal" and gen._side_rng(rng).random() < 0.1
+    if oversampled:
+        with probes.quiet():
+            sig = OversampledSignal.like(sig, oversampling=int(gen.pick(rng, [2, 4])))
+    desc.update(nperseg=P, N=N, tones=ks, user_subclass=bool(oversampled))
     ctx.describe_case(desc)
     ctx.sample(desc, limit=4)
-    feats = {"nchan": nchan, "align": align, "odd_nperseg": bool(P % 2), "dask": use_dask}
+    feats = {"nchan": nchan, "align": align, "odd_nperseg": bool(P % 2), "dask": use_dask, "user_subclass": bool(oversampled)}
     with probes.quiet():
         m = monitors.meta_of(sig)
         in_labels = monitors.model_labels(m["fc"], m["bw"], m["align"], nchan)
@@ -284,6 +301,18 @@ def wl_stft(ctx, idx, rng):
         ctx.violation(o, f"stft sample_rate {st.sample_rate} != input rate / nperseg", None, dict(feats, what="rate"))
     if not monitors.same_time(ms["start"], m["start"], exact.TIME_TOL_S):
         ctx.violation(o, "stft changed start_time", None, dict(feats, what="start"))
+    if ms["dtype"] != m["dtype"]:
+        ctx.violation(o, f"stft of {m['dtype']} samples returned {ms['dtype']}", None, dict(feats, what="dtype"))
+    if oversampled:
+        # only the time axis is judged for the user subclass (its channel spacing is its own business)
+        back, exc = ctx.call(o, pb.contrib.istft, st, nperseg=P, where="istft", features=feats)
+        if exc is None:
+            with probes.quiet():
+                mb = monitors.meta_of(back)
+            if abs(mb["rate"] - m["rate"]) > 8 * exact.REL * m["rate"]:
+                ctx.violation(o, f"istft(stft(z)) sample_rate {back.sample_rate} != {sig.sample_rate}", None, dict(feats, what="rate_back"))
+        ctx.bucket("stft_subclass", nchan, P)
+        return
     sub = m["bw"] / P
     tol = monitors.label_tol(m["fc"], m["bw"], nchan) * 4
     if tol > sub / 100:
@@ -337,6 +366,8 @@ def wl_stft(ctx, idx, rng):
     if type(back) is not type(sig):
         ctx.violation(o, f"istft returned {type(back).__name__}", None, dict(feats, what="class_back"))
         return
+    if mb["dtype"] != m["dtype"]:
+        ctx.violation(o, f"istft(stft(z)) of {m['dtype']} samples returned {mb['dtype']}", None, dict(feats, what="dtype_back"))
     if yb.shape != xin.shape:
         ctx.violation(o, f"istft(stft(z)) has shape {yb.shape}, expected {xin.shape}", None, dict(feats, what="shape_back"))
         return
